@@ -1,4 +1,5 @@
 import MontePyVerif.Model.Collection
+import MontePyVerif.Spec.Refs
 /-!
 # Model of MontePy's object links and of the numbers written at every modelled reference site (C04)
 
@@ -31,6 +32,7 @@ No imports beyond the collection model: the file is used by the compiled driver.
 -/
 namespace MontePyVerif.Links
 open MontePyVerif.Collection
+open MontePyVerif.Spec.Refs (WCell WSurf WMat WFile)
 
 inductive Kind | cell | surf | mat | tr | univ
   deriving DecidableEq, Repr
@@ -111,44 +113,7 @@ def step (p : Prob) (op : Op) : Prob × Out := setNumber p op.kind op.obj op.n
 /-- a history of number assignments (rejected ones leave the numbers as they are and go on) -/
 def run (p : Prob) (ops : List Op) : Prob := ops.foldl (fun p op => (step p op).1) p
 
-/-! ## The written file (numbers only) -/
-
-structure WCell where
-  number : Int
-  /-- material number, 0 = void -/
-  mat : Int
-  /-- geometry leaves: (is `#n` complement, written number) -/
-  geom : List (Bool × Int)
-  /-- `U=` entry in the cell block (`none`: not written there) -/
-  u : Option Int
-  /-- universe numbers of the `FILL=` entry in the cell block (`[]`: not written there) -/
-  fill : List Int
-  /-- transform number inside `FILL=u (n)` -/
-  fillTr : Option Int
-  deriving DecidableEq, Repr
-
-structure WSurf where
-  number : Int
-  tr : Option Int
-  per : Option Int
-  deriving DecidableEq, Repr
-
-structure WMat where
-  number : Int
-  /-- number of the MT card written behind the material -/
-  mt : Option Int
-  deriving DecidableEq, Repr
-
-structure WFile where
-  cells : List WCell
-  surfs : List WSurf
-  mats : List WMat
-  trs : List Int
-  /-- data-block `U` card: one entry per cell, 0 = jump (real world) -/
-  uCard : Option (List Int)
-  /-- data-block `FILL` card: one entry per cell, `none` = jump -/
-  fillCard : Option (List (Option Int))
-  deriving DecidableEq, Repr
+/-! ## The written file (numbers only; the types are `Spec/Refs.lean`'s: the file is the interface) -/
 
 /-- half_space.py:UnitHalfSpace._update_node — `self._node.value = self.divider.number` -/
 def unitHalfSpaceUpdateNode (p : Prob) (l : Leaf) : Bool × Int :=
@@ -228,17 +193,17 @@ def pushUniverses : List Int → List Int → List Int
   | acc, [] => acc
   | acc, u :: t => if u ∈ acc then pushUniverses acc t else pushUniverses (acc ++ [u]) t
 
-/-- the universe a cell is in, as the file says: cell-block entry, else data-block card, else 0
-    (a negative entry `u=-n` is universe `n`, not truncated) -/
-def WFile.effU (wf : WFile) (i : Nat) : Int :=
+/-- cell.py:Cell.old_universe_number after universe_input.py:UniverseInput.push_to_cells handed the data-block
+    nodes to the cells: cell-block entry, else data-block card, else 0 (`u=-n` is universe `n`, not truncated) -/
+def oldUniverseNumber (wf : WFile) (i : Nat) : Int :=
   match (wf.cells[i]?).bind (·.u) with
   | some n => n
   | none => match wf.uCard with
     | some l => l.getD i 0
     | none => 0
 
-/-- the universes filling cell `i`, as the file says -/
-def WFile.effFill (wf : WFile) (i : Nat) : List Int :=
+/-- fill.py:Fill.old_universe_number(s) after Fill.push_to_cells handed the data-block nodes to the cells -/
+def oldFillNumbers (wf : WFile) (i : Nat) : List Int :=
   match wf.cells[i]? with
   | none => []
   | some c =>
@@ -254,38 +219,47 @@ def optBind {α β} (o : Option α) (f : α → Option β) : Option (Option β) 
     | none => none
     | some b => some (some b)
 
-/-- `None` of the result = `BrokenObjectLinkError` / `KeyError` while linking -/
-def link (wf : WFile) : Option Prob := do
+/-- cell.py:Cell.update_pointers (`materials[self.old_mat_number]`), half_space.py:UnitHalfSpace.update_pointers
+    (`container[self._divider]`), universe_input.py:UniverseInput.push_to_cells (`universes[uni_num]`),
+    fill.py:Fill.push_to_cells (`universes[number]`, `transforms[self.old_transform_number]`) for cell card `i` -/
+def linkCell (wf : WFile) (cells surfs mats trs univs : St) (i : Nat) : Option CellL := do
+  let c ← wf.cells[i]?
+  let mat ← if c.mat = 0 then some none else (lookup mats c.mat).map some
+  let geom ← c.geom.mapM (fun (l : Bool × Int) => do
+    let t ← lookup (if l.1 then cells else surfs) l.2
+    pure ({ isCell := l.1, target := t } : Leaf))
+  let univ ← lookup univs (oldUniverseNumber wf i)
+  let fill ← (oldFillNumbers wf i).mapM (lookup univs)
+  let fillTr ← optBind c.fillTr (lookup trs)
+  pure { mat, geom, univ, fill, fillTr }
+
+/-- surface.py:Surface.update_pointers -/
+def linkSurf (surfs trs : St) (s : WSurf) : Option SurfL := do
+  let tr ← optBind s.tr (lookup trs)
+  let per ← optBind s.per (lookup surfs)
+  pure { tr, per }
+
+/-- thermal_scattering.py:ThermalScatteringLaw.update_pointers (the MT card is attached to the material
+    with its number by material.py:Material.update_pointers) -/
+def linkMat (mats : St) (m : WMat) : Option MatL := do
+  let mt ← optBind m.mt (lookup mats)
+  pure { mt }
+
+/-- mcnp_problem.py:__update_internal_pointers; `none` = `BrokenObjectLinkError` / `KeyError` while linking -/
+def link (wf : WFile) : Option Prob :=
   let cells := mkColl (wf.cells.map (·.number))
   let surfs := mkColl (wf.surfs.map (·.number))
   let mats := mkColl (wf.mats.map (·.number))
   let trs := mkColl wf.trs
-  let idx := List.range wf.cells.length
-  let univs := mkColl (pushUniverses [] (idx.map wf.effU))
-  -- cell.py:Cell.update_pointers, half_space.py:UnitHalfSpace.update_pointers, Fill.push_to_cells, UniverseInput.push_to_cells
-  let cellL ← (List.range wf.cells.length).mapM (fun i => do
-    let c ← wf.cells[i]?
-    let mat ← if c.mat = 0 then some none else (lookup mats c.mat).map some
-    let geom ← c.geom.mapM (fun (l : Bool × Int) => do
-      let t ← lookup (if l.1 then cells else surfs) l.2
-      pure ({ isCell := l.1, target := t } : Leaf))
-    let univ ← lookup univs (wf.effU i)
-    let fill ← (wf.effFill i).mapM (lookup univs)
-    let fillTr ← optBind c.fillTr (lookup trs)
-    pure ({ mat, geom, univ, fill, fillTr } : CellL))
-  -- surface.py:Surface.update_pointers
-  let surfL ← wf.surfs.mapM (fun s => do
-    let tr ← optBind s.tr (lookup trs)
-    let per ← optBind s.per (lookup surfs)
-    pure ({ tr, per } : SurfL))
-  -- thermal_scattering.py:ThermalScatteringLaw.update_pointers
-  let matL ← wf.mats.mapM (fun m => do
-    let mt ← optBind m.mt (lookup mats)
-    pure ({ mt } : MatL))
-  pure { cells, surfs, mats, trs, univs,
-         cell := fun o => cellL.getD o { mat := none, geom := [], univ := 0, fill := [], fillTr := none },
-         surf := fun o => surfL.getD o { tr := none, per := none },
-         mat := fun o => matL.getD o { mt := none },
-         uData := wf.uCard.isSome, fillData := wf.fillCard.isSome }
+  let univs := mkColl (pushUniverses [] ((List.range wf.cells.length).map (oldUniverseNumber wf)))
+  match (List.range wf.cells.length).mapM (linkCell wf cells surfs mats trs univs),
+        wf.surfs.mapM (linkSurf surfs trs), wf.mats.mapM (linkMat mats) with
+  | some cellL, some surfL, some matL =>
+    some { cells, surfs, mats, trs, univs,
+           cell := fun o => cellL.getD o { mat := none, geom := [], univ := 0, fill := [], fillTr := none },
+           surf := fun o => surfL.getD o { tr := none, per := none },
+           mat := fun o => matL.getD o { mt := none },
+           uData := wf.uCard.isSome, fillData := wf.fillCard.isSome }
+  | _, _, _ => none
 
 end MontePyVerif.Links
